@@ -13,7 +13,24 @@ from checks import c02, rcommon
 LEVEL = "model_checking"
 
 
+def design_model(chk):
+    """BatchReaderImpl.tla: the zero-copy branch of the batch reader must keep all columns of a batch
+    row-aligned; the `page rows <= batch rows` rule of the pinned commit must be rejected."""
+    from vlib import common
+    r = common.run_tlc("MC_BatchReaderImpl", cfg="MC_BatchReaderImpl_fixed", workers=2, want_cases=False)
+    if r.violated:
+        chk.violation("batch-reader-design:" + r.violated, "TLC: the zero-copy batch design violates row alignment", r.out[-2500:])
+    elif r.rc != 0:
+        raise common.InfraError("MC_BatchReaderImpl failed\n" + r.out[-1500:])
+    chk.add_tlc(r)
+    r2 = common.run_tlc("MC_BatchReaderImpl", cfg="MC_BatchReaderImpl_pinned", workers=2, want_cases=False)
+    if not r2.violated:
+        raise common.InfraError("BatchReaderImpl no longer rejects the pinned zero-copy rule (vacuous model)")
+    chk.part("design_model", states=r.distinct, pinned_design_counterexample_found=True)
+
+
 def run(chk, tier, replay):
+    design_model(chk)
     chk.assumptions += ["Each I/O path is validated against the same specification and fixture content; equality across paths follows",
                         "Batch boundaries may differ between paths (recorded, not a violation); row alignment inside a batch may not",
                         "Kept batches are only touched before their own free and before reader close (API contract)"]
